@@ -217,6 +217,16 @@ Definition read_body (p : params) (to : list byte) (mlen : N) (s2 : sock) : outc
       end
     end.
 
+(* "*tag != c || tag[1]": tag[] holds the digits of the tag and a NUL, so the test passes exactly
+   for the one-character tag c (commit cb750d0; before: only the first character was compared) *)
+Definition tag_exact (tag : list byte) (c : byte) : bool :=
+  match tag with [b] => (b =? c)%N | _ => false end.
+
+(* "*val && !isdigit(*val)" (commit b287a2f): the first character of the BodyLength value came with
+   the fixed-size first read and was not checked by the digit loop *)
+Definition first_not_digit (val : list byte) : bool :=
+  match val with b :: _ => negb (b =? 0)%N && negb (isdigit b) | [] => false end.
+
 (* the part of FIXReader::read between the preamble loop and the body: the two extract_element
    calls into char tag[MAX_MSGTYPE_FIELD_LEN], val[FIX8_MAX_FLD_LENGTH] *)
 Definition read_fields (p : params) (to : list byte) (s2 : sock) : outcome * sock :=
@@ -224,6 +234,26 @@ Definition read_fields (p : params) (to : list byte) (s2 : sock) : outcome * soc
   | EEOob st => (OOob st, s2)
   | EERet r1 tag1 val1 =>
     if r1 =? 0 then (OIllegal to, s2)                  (* falls through to the final throw *)
+    else if negb (tag_exact tag1 56%N) then (OIllegal to, s2)      (* *tag != '8' || tag[1] *)
+    else if negb (list_eqb (cstr val1) (p_begin p)) then (OBadVersion (cstr val1), s2)
+    else
+      match extract_element p (skipn r1 to) with
+      | EEOob st => (OOob st, s2)
+      | EERet r2 tag2 val2 =>
+        if r2 =? 0 then (OIllegal to, s2)
+        else if negb (tag_exact tag2 57%N) then (OIllegal to, s2)  (* *tag != '9' || tag[1] *)
+        else if first_not_digit val2 then (OIllegal to, s2)        (* *val && !isdigit( *val) *)
+        else read_body p to (atoi_u32 (cstr val2)) s2              (* mlen = fast_atoi<unsigned>(val) *)
+      end
+  end.
+
+(* FIXReader::read as it was before cb750d0 / b287a2f (first character of the tags only, first
+   BodyLength character unchecked): kept only for the witnesses c15_lenient_orig_refuted *)
+Definition read_fields_orig (p : params) (to : list byte) (s2 : sock) : outcome * sock :=
+  match extract_element p to with
+  | EEOob st => (OOob st, s2)
+  | EERet r1 tag1 val1 =>
+    if r1 =? 0 then (OIllegal to, s2)
     else if negb (head_is tag1 56%N) then (OIllegal to, s2)        (* *tag != '8' *)
     else if negb (list_eqb (cstr val1) (p_begin p)) then (OBadVersion (cstr val1), s2)
     else
@@ -232,7 +262,7 @@ Definition read_fields (p : params) (to : list byte) (s2 : sock) : outcome * soc
       | EERet r2 tag2 val2 =>
         if r2 =? 0 then (OIllegal to, s2)
         else if negb (head_is tag2 57%N) then (OIllegal to, s2)    (* *tag != '9' *)
-        else read_body p to (atoi_u32 (cstr val2)) s2              (* mlen = fast_atoi<unsigned>(val) *)
+        else read_body p to (atoi_u32 (cstr val2)) s2
       end
   end.
 
@@ -290,6 +320,35 @@ Definition ending_of (o : outcome) (closed : bool) : ending :=
 (* a whole run: [closed] = the peer closes the connection after the last chunk *)
 Definition run (p : params) (chunks : sock) (closed : bool) : list (list byte) * ending :=
   let (d, o) := read_all (S (total chunks)) p chunks in (d, ending_of o closed).
+
+(* the same reader with the old field tests (witnesses only) *)
+Definition read_msg_orig (p : params) (s : sock) : outcome * sock :=
+  let bg := bg_sz p in
+  match sock_read bg s with
+  | (None, s1) => (OEos, s1)
+  | (Some pre, s1) =>
+    if p_max p <? bg then (OOob SiteMsgBuf, s1) else
+    match pre_loop (p_max p) p (rev pre) bg s1 with
+    | (PEos, s2) => (OEos, s2)
+    | (PIllegal buf, s2) => (OIllegal (cstr buf), s2)
+    | (POob, s2) => (OOob SiteMsgBuf, s2)
+    | (PFuel, s2) => (OFuel, s2)
+    | (PDone to, s2) => read_fields_orig p to s2
+    end
+  end.
+
+Fixpoint read_all_orig (fuel : nat) (p : params) (s : sock) : list (list byte) * outcome :=
+  match fuel with
+  | O => ([], OFuel)
+  | S f =>
+    match read_msg_orig p s with
+    | (OMsg m, s') => let (d, e) := read_all_orig f p s' in (m :: d, e)
+    | (o, _) => ([], o)
+    end
+  end.
+
+Definition run_orig (p : params) (chunks : sock) (closed : bool) : list (list byte) * ending :=
+  let (d, o) := read_all_orig (S (total chunks)) p chunks in (d, ending_of o closed).
 
 (* the longest preamble field value extract_element accepts: ValSz - 1 *)
 Definition max_width (p : params) : nat := p_valcap p - 1.
